@@ -95,6 +95,34 @@ CHECKS["C13"] = dict(
     note="Trusted: TLC, the concretisation of classes in harness/cmd/drive/codeccmd.go. Value-level fidelity is exploration-level.",
     technique="TLA+ transcription of the decoder's case analysis (Codec.tla); TLC enumerates the lattice; each case replayed on the real codec; TLC validation")
 
+PROG_NOTE = ("Trusted: TLC, hooks, driver and puppets (drive and record only). Before(c1,c2) comes from the driver's own "
+             "StubRet/StubCall events. The observation window affects detection power only; timing-dependent rejections "
+             "(ProgEnd/Quiescent) are re-run before being reported.")
+CHECKS["C03"] = dict(
+    engine="prog",
+    category="model_checking",
+    text="Fifo.tla states per-connection FIFO (against the callers' happens-before order, not the queue order), no double "
+         "start, and all-handled as preconditions of the HStart action over API-level events; TLC enumerates every ordered "
+         "pair of call variants (16 methods x send-waiting x {all fast, one slow, one holding node} handler patterns x "
+         "release order; thorough adds triples) and each program is executed on the real library with send buffer 0 and 2 "
+         "(quick: 900 seeded programs per setting); TLC validates each recorded section against FifoTrace.tla. The "
+         "interleavings of sender/receiver/server loop themselves are explored at design level in Channel.tla.",
+    ref="DESIGN.md 5 C03, 3.0 (Fifo), 3.2",
+    note=PROG_NOTE,
+    technique="TLA+ guarantee module (Fifo.tla) + TLC program enumeration; programs executed on real code; TLC trace validation")
+CHECKS["C04"] = dict(
+    engine="prog",
+    category="model_checking",
+    text="Fifo.tla's HStart precondition 'no earlier handler of this connection is unreleased' with idempotent HRelease/"
+         "HReturn; TLC enumerates programs over every release style (on entry, implicit on return, late, x3, from three "
+         "helper goroutines, failing handler, never) x handler kind (unary, stream, one-way) x a second call on the same "
+         "or on another client connection; all 1568 programs (thorough adds triples) are executed with send buffer 0 and "
+         "2; a second connection must complete while the first is held; a runtime fatal error of the driver process "
+         "(e.g. unlock of unlocked mutex) is reported as violation.",
+    ref="DESIGN.md 5 C04, 3.0 (Fifo), 3.2",
+    note=PROG_NOTE,
+    technique="TLA+ guarantee module (Fifo.tla) + TLC program enumeration; programs executed on real code; TLC trace validation")
+
 PENDING = {
     "C03": "check under construction (Fifo layer, DESIGN.md 11 step 3)",
     "C04": "check under construction (Fifo layer, DESIGN.md 11 step 3)",
@@ -135,6 +163,8 @@ def main():
              "kind_free_text": "TLC on specs/Sort.tla (SortGen enumeration, SortTrace validation) + drive sort"},
             {"name": "codec", "path": "tools/check_codec.py", "serves_properties": ["C13"],
              "kind_free_text": "TLC on specs/Codec.tla (CodecGen lattice, CodecTrace validation) + drive codec"},
+            {"name": "prog", "path": "tools/check_prog.py", "serves_properties": ["C03", "C04"],
+             "kind_free_text": "TLC on specs/Fifo.tla (FifoGen program enumeration, FifoTrace validation) + drive prog"},
             {"name": "calls", "path": "tools/check_calls.py",
              "serves_properties": ["C01", "C02", "C06", "C11"],
              "kind_free_text": "TLC on specs/Calls.tla (CallsMC exhaustive, CallsGen behaviour generator, CallsTrace trace "
